@@ -175,8 +175,12 @@ class ConstantScoreQuery(WrappingQuery):
 
         context = context or SearchContext()
         m = self.child.matcher(searcher, context)
-        if context.needs_current or isinstance(m, matching.NullMatcherClass):
+        if isinstance(m, matching.NullMatcherClass):
             return m
+        elif context.needs_current:
+            # The caller needs the real matcher (e.g. to record matched
+            # terms), but the score is still the constant
+            return matching.ConstantScoreWrapperMatcher(m, self.score)
         else:
             ids = array("I", m.all_ids())
             return matching.ListMatcher(ids, all_weights=self.score,
